@@ -94,8 +94,12 @@ pub fn check_structure(s: &Snap) -> Result<StructInfo, String> {
             }
             visited[i] = true;
             let k = nd.key as i64;
-            if !(fr.lo < k && k < fr.hi) {
-                return Err(format!("search order broken at slot {}: key {} not inside ({}, {})", i, nd.key, fr.lo, fr.hi));
+            // non-strict: an expired entry may legitimately still be stored next to a
+            // newer entry with an equal key (the insertion contract allows re-inserting
+            // a key whose old entry has expired); equal *live* keys are the functional
+            // oracles' business
+            if !(fr.lo <= k && k <= fr.hi) {
+                return Err(format!("search order broken at slot {}: key {} not inside [{}, {}]", i, nd.key, fr.lo, fr.hi));
             }
             if !nd.red {
                 fr.blacks += 1;
